@@ -93,6 +93,15 @@ Fixpoint register (idx : index) (h : pheap) (p : bytes) (ms : list (N * decl))
       end
   end.
 
+(* CompileAndRun since "fix: a program reload waits for the previous vm before
+   the new one takes over": hash short-cut; compile; vm.New; then, under
+   handleMu, the old VM (if any) is stopped and awaited, the registration loop
+   runs, and either the new VM is started under the name (startVM) or, when
+   Store.Add refuses a metric, prog_load_errors_total is counted and the OLD
+   handle (same VM object, same content hash) is started again under the name.
+   In this sequential model stopping and restarting the same VM is invisible:
+   the handle is unchanged on the refused path.  (The stop/await/restart
+   protocol itself is C20's subject.) *)
 Inductive load_result := LSame | LCompileErr | LRefused | LLoaded.
 
 Definition with_errs (x : pstate) : pstate :=
